@@ -22,6 +22,12 @@ Theorem C11_server_none_open : forall (tls : bool) (evs : list sev),
 Proof. exact server_none_open. Qed.
 Print Assumptions C11_server_none_open.
 
+(* ... and nothing accepted is left queued in .axes (so a later reopen cannot service leftovers as new) *)
+Theorem C11_server_axes_empty : forall (tls : bool) (evs : list sev),
+  axes (srun tls init (evs ++ [Close])) = [].
+Proof. exact server_axes_empty. Qed.
+Print Assumptions C11_server_axes_empty.
+
 (* at every moment (closed or not) a socket that is still open is still held by
    the server in .ss/.axes/.cxes/.ixes: nothing is dropped while open, whatever
    is replaced, aborted, rejected or removed has been closed *)
